@@ -257,6 +257,11 @@ def escape_rule(repo: Repo, rep, P: str, census, only=None, rule: str = "R2", fl
             mro_c = [c]
         for k in mro_c:
             for fname, fn in list(k.methods.items()) + list(k.getters.items()) + [(n2 + ".setter", v) for n2, v in k.setters.items()]:
+                if fname in k.methods and not fname.endswith(".setter"):
+                    try:
+                        fn = repo.own_method(k, fname)          # normal form: table-driven `setattr(self, f, getattr(self, "initial_" + f))` spelled out
+                    except Exception:
+                        pass
                 fns.append((f"{k.qualname}.{fname}" if k is not c else fname, fn))
         for fname, fn in fns:
             if c.name in META_OK:
@@ -276,9 +281,9 @@ def escape_rule(repo: Repo, rep, P: str, census, only=None, rule: str = "R2", fl
                     continue
                 if isinstance(node.ctx, ast.Store):
                     continue
-                if (id(fn), node.lineno, node.col_offset, inh[node.attr][0].fq) in seen_loads:
+                if (id(node), inh[node.attr][0].fq) in seen_loads:
                     continue
-                seen_loads.add((id(fn), node.lineno, node.col_offset, inh[node.attr][0].fq))
+                seen_loads.add((id(node), inh[node.attr][0].fq))
                 n_loads += 1
                 owner, val = inh[node.attr]
                 con = f"{c.file.rel}:{c.qualname}.{fname}"
